@@ -134,6 +134,16 @@ impl Connection {
             .map(|(send, recv)| (SendStream(send), recv))
     }
 
+    #[cfg(bmwill_anemo_verif)]
+    pub(crate) fn verif_close_reason(&self) -> Option<ConnectionError> {
+        self.inner.close_reason()
+    }
+
+    #[cfg(bmwill_anemo_verif)]
+    pub(crate) async fn verif_closed(&self) -> ConnectionError {
+        self.inner.closed().await
+    }
+
     /// Receive an application datagram
     pub async fn read_datagram(&self) -> Result<bytes::Bytes, ConnectionError> {
         self.inner.read_datagram().await
